@@ -44,22 +44,22 @@ Proof. unfold sub64. apply N.mod_lt. rewrite M64_val. discriminate. Qed.
 (* ------------------------------------------------------------------ induction on call trees *)
 Section call_ind.
   Variable P : call -> Prop.
-  Hypothesis H : forall a t0 t1 kids, Forall P kids -> P (Call a t0 t1 kids).
+  Hypothesis H : forall e a t0 t1 kids, Forall P kids -> P (CallX e a t0 t1 kids).
   Fixpoint call_ind' (c : call) : P c :=
     match c with
-    | Call a t0 t1 kids =>
-        H a t0 t1 kids ((fix go (l : list call) : Forall P l :=
+    | CallX e a t0 t1 kids =>
+        H e a t0 t1 kids ((fix go (l : list call) : Forall P l :=
                            match l with [] => Forall_nil _ | x :: t => Forall_cons _ (call_ind' x) (go t) end) kids)
     end.
 End call_ind.
 
-Definition c_t0 (c : call) := match c with Call _ t0 _ _ => t0 end.
-Definition c_t1 (c : call) := match c with Call _ _ t1 _ => t1 end.
-Definition c_addr (c : call) := match c with Call a _ _ _ => a end.
-Definition c_kids (c : call) := match c with Call _ _ _ k => k end.
+Definition c_t0 (c : call) := match c with CallX _ _ t0 _ _ => t0 end.
+Definition c_t1 (c : call) := match c with CallX _ _ _ t1 _ => t1 end.
+Definition c_addr (c : call) := match c with CallX _ a _ _ _ => a end.
+Definition c_kids (c : call) := match c with CallX _ _ _ _ k => k end.
 
 Fixpoint height (c : call) : nat :=
-  match c with Call _ _ _ kids => S (fold_right (fun k m => Nat.max (height k) m) 0%nat kids) end.
+  match c with CallX _ _ _ _ kids => S (fold_right (fun k m => Nat.max (height k) m) 0%nat kids) end.
 Definition heights (l : list call) : nat := fold_right (fun k m => Nat.max (height k) m) 0%nat l.
 
 (* ------------------------------------------------------------------ the tree recursion in the code's arithmetic *)
@@ -67,12 +67,12 @@ Definition dur64 (c : call) : N := sub64 (c_t1 c) (c_t0 c).
 Definition child64 (kids : list call) (ch : N) : N := fold_left (fun s k => add64 s (dur64 k)) kids ch.
 Fixpoint rows64 (anc : list N) (c : call) : list row :=
   match c with
-  | Call a t0 t1 kids =>
-      concat (map (rows64 (a :: anc)) kids)
+  | CallX e a t0 t1 kids =>
+      concat (map (rows64 (e :: anc)) kids)
       ++ [let delta := sub64 t1 t0 in
           let ch := child64 kids 0 in
           let child := if delta <? ch then delta else ch in
-          mkrow a delta (sub64 delta child) (negb (a =? 0) && existsb (N.eqb a) anc)]
+          mkrow a delta (sub64 delta child) (recursive e anc)]
   end.
 
 Lemma run_app st out l1 l2 :
@@ -84,9 +84,9 @@ Proof.
 Qed.
 
 (* the recursion test of the code as it is now: slots whose addr is 0 (frames never entered) do not count *)
-Lemma has_addr_map a stk : has_addr false a stk = negb (a =? 0) && existsb (N.eqb a) (map s_addr stk).
+Lemma has_addr_map a stk : has_addr false a stk = recursive a (map s_addr stk).
 Proof.
-  induction stk as [|s t IH]; [cbn; rewrite andb_false_r; reflexivity|].
+  unfold recursive. induction stk as [|s t IH]; [cbn; rewrite andb_false_r; reflexivity|].
   change (has_addr false a (s :: t)) with ((negb (s_addr s =? 0) && (s_addr s =? a)) || has_addr false a t).
   rewrite IH. cbn [map existsb]. rewrite (N.eqb_sym a (s_addr s)).
   destruct (N.eqb_spec (s_addr s) a) as [->|NE]; destruct (a =? 0) eqn:E0; cbn; try reflexivity.
@@ -152,14 +152,14 @@ Theorem run_call : forall c d stk dead usc l lx out, (height c <= length dead)%n
     run (mid stk dead usc l lx) out (flat d c)
     = (mid (bump stk (dur64 c)) dead' usc (c_t1 c) (c_t1 c), out ++ rows64 (map s_addr stk) c).
 Proof.
-  induction c as [a t0 t1 kids IH] using call_ind'. intros d stk dead usc l lx out Hh.
+  induction c as [e a t0 t1 kids IH] using call_ind'. intros d stk dead usc l lx out Hh.
   cbn [height] in Hh. fold (heights kids) in Hh.
   destruct dead as [|s dd]; [cbn in Hh; lia|]. cbn [length] in Hh.
   cbn [flat]. cbn [run]. rewrite step_entry. rewrite app_nil_r.
   rewrite run_app.
-  destruct (run_kids_gen kids IH (d + 1) a t0 0 stk dd (usc + 1) t0 t0 out) as (dd' & l' & lx' & Hl & E); [lia|].
+  destruct (run_kids_gen kids IH (d + 1) e t0 0 stk dd (usc + 1) t0 t0 out) as (dd' & l' & lx' & Hl & E); [lia|].
   rewrite E. cbn [run]. rewrite step_exit. cbn zeta.
-  exists (mkslot a (sub64 t1 t0) (if sub64 t1 t0 <? child64 kids 0 then sub64 t1 t0 else child64 kids 0) false :: dd').
+  exists (mkslot e (sub64 t1 t0) (if sub64 t1 t0 <? child64 kids 0 then sub64 t1 t0 else child64 kids 0) false :: dd').
   split; [cbn [length]; congruence|].
   cbn [rows64 c_t1 dur64 c_t0]. rewrite has_addr_map, N.add_sub, <- app_assoc. reflexivity.
 Qed.
@@ -198,12 +198,11 @@ Fixpoint chain (lo : N) (l : list call) (hi : N) : Prop :=
   | k :: r => lo <= c_t0 k /\ chain (c_t1 k) r hi
   end.
 Inductive wt : call -> Prop :=
-| wt_call a t0 t1 kids : a <> 0 -> t0 <= t1 -> t1 < M64 -> Forall wt kids -> chain t0 kids t1 -> wt (Call a t0 t1 kids).
+| wt_call e a t0 t1 kids : t0 <= t1 -> t1 < M64 -> Forall wt kids -> chain t0 kids t1 -> wt (CallX e a t0 t1 kids).
 
-Lemma wt_inv a t0 t1 kids : wt (Call a t0 t1 kids) -> t0 <= t1 /\ t1 < M64 /\ Forall wt kids /\ chain t0 kids t1.
+Lemma wt_inv e a t0 t1 kids : wt (CallX e a t0 t1 kids) -> t0 <= t1 /\ t1 < M64 /\ Forall wt kids /\ chain t0 kids t1.
 Proof. inversion 1; auto. Qed.
-Lemma wt_addr a t0 t1 kids : wt (Call a t0 t1 kids) -> a <> 0.
-Proof. inversion 1; auto. Qed.
+
 Lemma wt_le c : wt c -> c_t0 c <= c_t1 c /\ c_t1 c < M64.
 Proof. destruct c. intro H. apply wt_inv in H. cbn. tauto. Qed.
 Lemma dur64_wt c : wt c -> dur64 c = dur c.
@@ -227,10 +226,9 @@ Qed.
 (* under well-timedness the code's rows are the specification's rows: no wrap, no clamp *)
 Theorem rows64_spec : forall c anc, wt c -> rows64 anc c = spec_rows anc c.
 Proof.
-  induction c as [a t0 t1 kids IH] using call_ind'. intros anc H.
-  pose proof (wt_addr _ _ _ _ H) as Ha.
+  induction c as [e a t0 t1 kids IH] using call_ind'. intros anc H.
   apply wt_inv in H. destruct H as (H1 & H2 & H3 & H4).
-  cbn [rows64 spec_rows]. replace (a =? 0) with false by lia. cbn [negb andb]. f_equal.
+  cbn [rows64 spec_rows]. f_equal.
   - f_equal. apply map_ext_in. intros k Hk.
     rewrite Forall_forall in IH, H3. apply IH; auto.
   - destruct (chain_sumdur kids H3 _ _ H4) as [_ Hs].
@@ -247,7 +245,7 @@ Proof. unfold sum_self. induction l1 as [|w t IH]; cbn; [reflexivity|]. rewrite 
 
 Theorem conservation : forall c anc, wt c -> sum_self (spec_rows anc c) = dur c.
 Proof.
-  induction c as [a t0 t1 kids IH] using call_ind'. intros anc H.
+  induction c as [e a t0 t1 kids IH] using call_ind'. intros anc H.
   apply wt_inv in H. destruct H as (H1 & H2 & H3 & H4).
   cbn [spec_rows dur]. rewrite sum_self_app.
   assert (forall anc', sum_self (concat (map (spec_rows anc') kids)) = sumdur kids) as ->.
